@@ -94,8 +94,8 @@ class Gen:
                            "fields": [{"name": "f0", "ty": "i64", "key": "documented key", "doc": "the first field"},
                                       {"name": "f1", "ty": "Option<String>", "key": "f1"}]})
         self.types.append({"name": "TDocEnum", "kind": "enum",
-                           "variants": [{"name": "InProgress", "key": "in progress", "doc": "work has started"}, {"name": "Done", "key": "Done"},
-                                        {"name": "Failed", "key": "failed!", "doc": "it did not work"}]})
+                           "variants": [{"name": "V0", "key": "in progress", "doc": "work has started"}, {"name": "V1", "key": "V1"},
+                                        {"name": "V2", "key": "failed!", "doc": "it did not work"}]})
 
     def render_types(self):
         out = []
